@@ -1,12 +1,16 @@
 import Tahoe.Base.DrvUtil
 import Tahoe.Config.Parse
+import Tahoe.Config.Glue
 /-! Driver for C48.  One call per line:
       dur  SYM…   parse_duration            date SYM…   parse_date
       size SYM…   parse_abbreviated_size    abbr si|bin N   abbreviate_space
       rt   si|bin N   parse_abbreviated_size(abbreviate_space(N))
     SYM: dV (digit with int() value V)  w (whitespace, not newline)  n (newline)  aC (other ASCII char,
     code point C)  S (U+017F)  I (U+0131)  o (anything else);  the empty string is the single token `-`.
-    Output: ok:N | none | ValueError | KeyError ; abbr prints the string with ' ' shown as '_'. -/
+    Output: ok:N | none | ValueError | KeyError ; abbr prints the string with ' ' shown as '_'.
+      glue ro=B rs=V dd=B en=B mode=M old=V cut=V imm=B mut=B   the [storage] section through the client.py glue
+        B: t f bad ~(absent)   M: age cutoff other ~   V: ~(absent) -(empty) or SYM,SYM,…
+        → started:<reserved>:<enabled>:<mode>:<override|None>:<cutoff|None>:<imm>:<mut>:<readonly> | ValueError | KeyError | MissingConfigEntry -/
 open Tahoe.Drv Tahoe.Config
 
 def parseSym (t : String) : Option Sym :=
@@ -49,7 +53,54 @@ def parseMode : String → Option Bool
   | "bin" => some false
   | _ => none
 
+def parseB : String → Option (Option BoolVal)
+  | "~" => some none
+  | "t" => some (some .t)
+  | "f" => some (some .f)
+  | "bad" => some (some .bad)
+  | _ => none
+
+def parseM : String → Option (Option ModeVal)
+  | "~" => some none
+  | "age" => some (some .age)
+  | "cutoff" => some (some .cutoff)
+  | "other" => some (some .other)
+  | _ => none
+
+def parseV (t : String) : Option (Option (List Sym)) :=
+  if t == "~" then some none
+  else if t == "-" then some (some [])
+  else do pure (some (← (t.splitOn ",").mapM parseSym))
+
+def kv (key tok : String) : Option String :=
+  match tok.splitOn "=" with
+  | [k, v] => if k == key then some v else none
+  | _ => none
+
+def showB (b : Bool) : String := if b then "T" else "F"
+def showOpt {α : Type} [ToString α] : Option α → String
+  | none => "None"
+  | some v => toString v
+
+def showStart : Start → String
+  | .started s => s!"started:{s.reserved}:{showB s.enabled}:{match s.mode with | .age => "age" | .cutoff => "cutoff" | .other => "other"}:{showOpt s.overrideDuration}:{showOpt s.cutoff}:{showB s.immutable}:{showB s.mutable}:{showB s.readonly}"
+  | .error .valueError => "ValueError"
+  | .error .keyError => "KeyError"
+  | .error .missingEntry => "MissingConfigEntry"
+
+def handleGlue : List String → Option String
+  | [ro, rs, dd, en, mode, old, cut, imm, mu] => do
+    let c : StorageCfg := {
+      readonly := ← parseB (← kv "ro" ro), reservedSpace := ← parseV (← kv "rs" rs),
+      debugDiscard := ← parseB (← kv "dd" dd), expireEnabled := ← parseB (← kv "en" en),
+      expireMode := ← parseM (← kv "mode" mode), overrideLeaseDuration := ← parseV (← kv "old" old),
+      cutoffDate := ← parseV (← kv "cut" cut), expireImmutable := ← parseB (← kv "imm" imm),
+      expireMutable := ← parseB (← kv "mut" mu) }
+    pure (showStart (startStorage c))
+  | _ => none
+
 def handle : List String → String
+  | "glue" :: ts => (handleGlue ts).getD "bad-op"
   | "dur" :: ts => match parseSyms ts with
     | some s => showRes toString (parseDuration s)
     | none => "bad-op"
